@@ -2,6 +2,7 @@ package scen
 
 import (
 	"bytes"
+	"time"
 	"fmt"
 	"math/rand/v2"
 	"sync"
@@ -40,6 +41,20 @@ func (c10) Gen(r *rand.Rand, tier string, run int) *core.Case {
 	// buffers, pools - must not suffer)
 	c.Params["doomed"] = []int{0, 0, 2, 5}[r.IntN(4)]
 	c.Params["transport"] = []int{0, 0, 1, 2, 3, 4}[r.IntN(6)]
+	if r.IntN(8) == 0 {
+		// the receiver stops reading for a few simulated seconds while the
+		// senders are blocked in the middle of their messages, then resumes:
+		// nothing may have been lost, cut or mixed meanwhile
+		c.Batch = "receiver-pauses"
+		c.Params["pause_ms"] = []int{1000, 6500, 31000, 61000}[r.IntN(4)]
+		c.Sim.MaxIdleMs = 70000
+		if c.Net.Capacity == 0 || c.Net.Capacity > 512 {
+			c.Net.Capacity = []int{16, 64, 512}[r.IntN(3)]
+		}
+		if c.Params["transport"] == 4 {
+			c.Params["transport"] = 1
+		}
+	}
 	sizes := []int{0, 0, 1, 3, 27, 28, 29, 100, 255, 600, 600, 5000, 20000, 70000}
 	if c.Net.ReadMode == "byte" || c.Net.ReadMode == "tiny" || c.Net.Capacity == 16 {
 		sizes = sizes[:11]
@@ -227,6 +242,16 @@ func (c10) Run(c *core.Case, env *core.Env) {
 		env.Probe(fmt.Sprintf("transport-pair-%d", transport))
 	}
 	st.a = a
+	if ms := c.P("pause_ms", 0); ms > 0 && a != nil {
+		rx := a.Peer()
+		rx.StallReads(true)
+		go func() {
+			time.Sleep(time.Duration(ms) * time.Millisecond)
+			zzsim.Event("the receiver resumes reading")
+			rx.StallReads(false)
+			env.Probe("receiver-paused-and-resumed")
+		}()
+	}
 	by := map[int][]core.Op{}
 	var actors []int
 	for _, op := range c.Ops {
